@@ -110,6 +110,52 @@ def run(ctx):
             res["oracle_failures"].append(dict(clause="fit_returns_fitted_model_or_DataSufficiencyError", family=name,
                                                detail=f"{exc_name(e)}: {str(e)[:100]}", input="synthetic qualified baseline (harness/props/c04.py synth_*)"))
         sigs.add(("real_fit", name))
+    # ---------------- (A3) well-formed baselines in other numeric types and shapes: integer / float32 readings (whole-degree
+    # weather feeds, integer-kWh meters), a meter read on working days only, a baseline without a single meter reading.  Building the
+    # data object and calling fit() may only end in a fitted model or a DataSufficiencyError.
+    def _variant(kind):
+        d = synth_daily()
+        if kind == "int_temperature":
+            d["temperature"] = d["temperature"].round().astype("int64")
+        elif kind == "float32_temperature":
+            d["temperature"] = d["temperature"].astype("float32")
+        elif kind == "int_usage":
+            d["observed"] = (d["observed"] * 10).round().astype("int64")
+        elif kind == "float32_both":
+            d = d.astype({"temperature": "float32", "observed": "float32"})
+        elif kind == "weekdays_only":
+            d = d[d.index.dayofweek < 5]
+        elif kind == "no_meter_reading":
+            d["observed"] = np.nan
+        return d
+    for kind in ["int_temperature", "float32_temperature", "int_usage", "float32_both", "weekdays_only", "no_meter_reading"]:
+        for fam, mk, dcls in [("daily", lambda: DailyModel(), DailyBaselineData), ("daily_legacy", lambda: DailyModel(model="legacy"), DailyBaselineData)]:
+            if fam == "daily_legacy" and kind not in ("int_temperature", "float32_both"):
+                continue
+            res["evaluations"] += 1
+            stage = "data object"
+            try:
+                data = dcls(_variant(kind), is_electricity_data=True)
+                stage = "fit"
+                try:
+                    m = mk().fit(data)
+                    outcome = "fitted" if getattr(m, "is_fitted", False) else "not fitted"
+                except DataSufficiencyError:
+                    outcome = "DataSufficiencyError"
+                    if not data.disqualification:
+                        res["oracle_failures"].append(dict(clause="fit_raises_exactly_when_disqualified", family=fam, input=kind,
+                                                           detail="DataSufficiencyError for a baseline without disqualification"))
+                if outcome == "fitted" and data.disqualification:
+                    res["oracle_failures"].append(dict(clause="fit_raises_exactly_when_disqualified", family=fam, input=kind,
+                                                       detail="fitted although the baseline is disqualified and no override was given"))
+                if outcome == "fitted":
+                    stage = "predict"
+                    m.predict(DailyReportingData(_variant(kind).iloc[:90], is_electricity_data=True))
+                res["hist"][f"variant:{kind}:{outcome}"] = res["hist"].get(f"variant:{kind}:{outcome}", 0) + 1
+            except Exception as e:  # noqa
+                res["oracle_failures"].append(dict(clause="fit_returns_fitted_model_or_DataSufficiencyError", family=fam, input=kind, stage=stage,
+                                                   detail=f"{exc_name(e)}: {str(e)[:120]}"))
+            sigs.add(("variant", kind, fam))
     # ---------------- (A2) a baseline that IS disqualified, fitted with the override: the model inherits the disqualification, refuses
     # to predict without the override, and still does after storage (real fit path, nothing stubbed)
     from opendsm.eemeter.common.exceptions import DisqualifiedModelError as _DQE
